@@ -38,7 +38,43 @@ func (p c10) Run(c *core.Ctx) {
 	var plan map[string]world.SubPlan
 	var holders []any
 	family := "pop"
-	if c.Index < p.popCount(c.Tier) {
+	var dups []any     // duplicate-name components (registered in permuted positions)
+	type depSpec struct {
+		class, ord int
+		name       string
+	}
+	var depSpecs []depSpec // post-processors with injection points of their own (fresh objects per run)
+	if c.Index < p.popCount(c.Tier) && c.Index%7 == 5 {
+		// duplicate names: every registration order must be rejected alike (or resolve alike)
+		family = "duplicate-names"
+		g = RandomPopulation(c.Rng, PopOpts{MinP: 2, MaxP: 5, Types: []int{2, 5, 13, 27}, PUnnamed: 0.3})
+		h := g.AddNode(5, "dupholder")
+		switch c.Rng.Intn(3) {
+		case 0: // two instances of one type under one custom name
+			g.AddNode(0, "dup")
+			d := world.Palette[0].New()
+			d.Core().Name = "dup"
+			dups = append(dups, d)
+			g.SetTag(h, "IA0", "wire", "dup")
+		case 1: // different types, same custom name
+			g.AddNode(1, "dup")
+			d := world.Palette[3].New()
+			d.Core().Name = "dup"
+			dups = append(dups, d)
+			g.SetTag(h, "IA0", "wire", "dup")
+		case 2: // zero-size components sharing a custom name
+			dups = append(dups, &world.ZeroA{}, &world.ZeroB{})
+			g.SetTag(h, "IA0", "wire", "zero-name")
+		}
+		g.SetTag(h, "SA0", "wire", ",required=false")
+	} else if c.Index < p.popCount(c.Tier) && c.Index%7 == 6 {
+		family = "post-processors-with-dependencies"
+		g = RandomPopulation(c.Rng, PopOpts{MinP: 2, MaxP: 8, Types: plainAB, PUnnamed: 0.4})
+		g.Sc.Config = "dep:\n  v: configured\n"
+		for k := 0; k < 1+c.Rng.Intn(3); k++ {
+			depSpecs = append(depSpecs, depSpec{c.Rng.Intn(3), []int{-5, 1, 3, 100}[c.Rng.Intn(4)], fmt.Sprintf("deppp%d", k)})
+		}
+	} else if c.Index < p.popCount(c.Tier) {
 		g = RandomPopulation(c.Rng, PopOpts{MinP: 3, MaxP: 12, Types: world.TypesAll, PUnnamed: 0.4})
 		n := len(g.Sc.Nodes)
 		mix := TagMix{ByType: 4, Func: 0.4, ByName: 0.4, PQualifier: 0.3, POptional: 0.4}
@@ -98,6 +134,23 @@ func (p c10) Run(c *core.Ctx) {
 			resetHolder(h)
 		}
 		opt := world.Options{Extra: append([]any{}, holders...)}
+		var depPPs []any
+		for _, d := range depSpecs {
+			depPPs = append(depPPs, world.NewDepPP(d.class, d.name, d.ord))
+		}
+		c.Rng.Shuffle(len(depPPs), func(i, j int) { depPPs[i], depPPs[j] = depPPs[j], depPPs[i] })
+		opt.Extra = append(opt.Extra, depPPs...)
+		if len(dups) > 0 {
+			// the duplicates take part in the registration permutation: before or after the nodes
+			if c.Rng.Intn(2) == 0 {
+				opt.ExtraFirst = append(opt.ExtraFirst, dups...)
+			} else {
+				perm := c.Rng.Perm(len(dups))
+				for _, i := range perm {
+					opt.Extra = append(opt.Extra, dups[i])
+				}
+			}
+		}
 		{
 			// perturb the schedule of the parallel scan phase in every third run: a harness scanner that yields /
 			// sleeps per component (the scanner itself is registered in every run: same population)
@@ -129,7 +182,15 @@ func (p c10) Run(c *core.Ctx) {
 		r := world.Start(sc, opt)
 		c.Count("starts", 1)
 		c.Count("outcome_"+r.Outcome(), 1)
-		ps, exp := evalAgainstModel(r, plan == nil, holders...)
+		if len(dups) > 0 && r.Outcome() == "panic" && strings.Contains(fmt.Sprint(r.Panic), "duplicate") {
+			all = append(all, obs{outcome: "rejected-duplicate", detail: "registration rejected: " + core.Short(fmt.Sprint(r.Panic), 120)})
+			nontrivial = true
+			continue
+		}
+		ps, exp := evalAgainstModel(r, plan == nil && len(dups) == 0, holders...)
+		if len(dups) > 0 {
+			ps = nil // the model does not describe populations with rejected members; the differential below judges
+		}
 		if plan != nil {
 			// substitution may legitimately make the start fail (C03); panics / divergence / wiring are still checked
 			var keep []problem
@@ -164,7 +225,18 @@ func (p c10) Run(c *core.Ctx) {
 		for ord := range r.Perm.Orders {
 			c.Distinct("candidate_orders", ord)
 		}
-		all = append(all, obs{outcome: r.Outcome(), wiring: determinedWiring(r, exp), detail: core.Short(r.OutcomeDetail(), 300)})
+		wiring := determinedWiring(r, exp)
+		if len(dups) > 0 {
+			wiring = rawWiring(r)
+		}
+		var descs []string
+		for _, d := range depPPs {
+			descs = append(descs, d.(world.Describer).Describe())
+			nontrivial = true
+		}
+		sort.Strings(descs)
+		wiring += ";" + strings.Join(descs, ";")
+		all = append(all, obs{outcome: r.Outcome(), wiring: wiring, detail: core.Short(r.OutcomeDetail(), 300)})
 	}
 	if ambiguous {
 		c.Ambiguous()
@@ -210,6 +282,32 @@ var plainAny = func() []int {
 	}
 	return out
 }()
+
+// rawWiring renders every tagged slot of every node by object identity (node index / type).
+func rawWiring(r *world.Run) string {
+	var parts []string
+	for ni, n := range r.Nodes {
+		for _, s := range world.SortedSlots(&r.Sc.Nodes[ni]) {
+			refs, _ := r.SlotRefs(n, s)
+			var ids []string
+			for _, ref := range refs {
+				switch {
+				case ref.Nil:
+					ids = append(ids, "nil")
+				default:
+					if nd, ok := ref.Obj.(world.Node); ok {
+						ids = append(ids, fmt.Sprintf("%T#%d:%s", ref.Obj, nd.Core().Idx, nd.DisplayName()))
+					} else {
+						ids = append(ids, fmt.Sprintf("%T", ref.Obj))
+					}
+				}
+			}
+			sort.Strings(ids)
+			parts = append(parts, fmt.Sprintf("%d.%s=%s", ni, s, strings.Join(ids, ",")))
+		}
+	}
+	return strings.Join(parts, ";")
+}
 
 func outcomesOf[T any](xs []T, f func(T) string) []string {
 	var out []string
